@@ -38,7 +38,7 @@ class Exec(CallsMixin):
         if len(states) <= 1 or self.opts.get("split", False):
             return states
         try:
-            return [merge_states(states)]
+            return [merge_states(states, strict_log=bool(self.opts.get("track_calls")))]
         except MergeFail:
             return states
 
@@ -50,7 +50,29 @@ class Exec(CallsMixin):
         saved_pending = self.pending
         self.pending = []
         try:
-            outs = m(node, st)
+            if self.opts.get("abstract_unsupported") and self.depth == 0 and not isinstance(
+                    node, (ast.If, ast.For, ast.AsyncFor, ast.While, ast.Try, ast.With, ast.AsyncWith, ast.Match, ast.Return, ast.Raise)):
+                snap = st.fork()
+                try:
+                    outs = m(node, st)
+                except OutOfSubset as e:
+                    text = ast.unparse(node)
+                    for t in self.opts.get("tracked_names", ()):
+                        if t in text:
+                            raise
+                    # abstract the whole statement: assigned names become unknown, it may raise, tracked state untouched
+                    st.vars, st.heap, st.pc, st.log, st.ghost = snap.vars, snap.heap, snap.pc, snap.log, snap.ghost
+                    self.pending = []
+                    names, roots = self.body_writes([node])
+                    self.havoc_loop(st, names, roots, node)
+                    for n_ in names:
+                        if n_ not in st.vars:
+                            st.vars[n_] = Val("any", fresh("abstracted_" + n_, Any))
+                    self.abstracted.append((node.lineno, text[:80], str(e)[-80:]))
+                    self.may_raise(st, fresh("abstracted_raises", BoolS), Exc(None, origin="abstracted statement"), node)
+                    outs = [Outcome("next", st)]
+            else:
+                outs = m(node, st)
             outs = list(self.pending) + list(outs)
         finally:
             self.pending = saved_pending
@@ -200,6 +222,8 @@ class Exec(CallsMixin):
         if isinstance(target, ast.Attribute):
             recv = self.eval(target.value, st)
             if isinstance(recv, Ref) and st.cell(recv).kind == "obj":
+                if st.cell(recv).frozen:
+                    self.oos("attribute assignment on an object whose aliasing was lost at a join", node)
                 g = self.guard_cond()
                 if g is not None:
                     old = self.getattr(recv, target.attr, st, node)
@@ -258,8 +282,21 @@ class Exec(CallsMixin):
         self.assign(target, v, st, node)
 
     # control flow -------------------------------------------------------------------------------
+    def abstract_test(self, test, st, node):
+        """slicing mode (DESIGN App. B): a branch condition that mentions no tracked name is an unconstrained boolean
+        (its evaluation may raise)"""
+        if not self.opts.get("abstract_conditions") or self.depth > 0:
+            return None
+        text = ast.unparse(test)
+        if any(t in text for t in self.opts.get("tracked_names", ())):
+            return None
+        self.may_raise(st, fresh("cond_raises", BoolS), Exc(None, origin="branch condition"), node)
+        return fresh(f"cond_L{getattr(node, 'lineno', 0)}", BoolS)
+
     def s_If(self, node, st):
-        c = self.truth(self.eval(node.test, st), st, node)
+        c = self.abstract_test(node.test, st, node)
+        if c is None:
+            c = self.truth(self.eval(node.test, st), st, node)
         cs = z3.simplify(c)
         if z3.is_true(cs):
             return self.exec_block(node.body, st)
@@ -394,7 +431,7 @@ class Exec(CallsMixin):
         for key, os_ in groups.items():
             if len(os_) > 1:
                 try:
-                    m = merge_states([o.state for o in os_])
+                    m = merge_states([o.state for o in os_], strict_log=bool(self.opts.get("track_calls")))
                     out.append([Outcome("raise", m, os_[0].payload, os_[0].node)])
                     continue
                 except MergeFail:
@@ -440,7 +477,7 @@ class Exec(CallsMixin):
         merged_raises = []
         if len(raises) > 1 and not self.opts.get("split", False):
             try:
-                m = merge_states([o.state for o in raises])
+                m = merge_states([o.state for o in raises], strict_log=bool(self.opts.get("track_calls")))
                 ex = raises[0].payload if all(o.payload.cls == raises[0].payload.cls for o in raises) else Exc(None, origin="merged")
                 merged_raises = [Outcome("raise", m, ex, raises[0].node)]
             except MergeFail:
